@@ -31,9 +31,9 @@ theorem ntLoop_insert (l : Line) (rest : List Line) (pre : List (List PyLit)) (c
   simp only [modifyLast_concat, insertBeforeLast_concat]
 
 /-- every value of the subset satisfies the token hypotheses -/
-def AllReprOK (o : SubsetOut) : Prop := ∀ v ∈ o.vals, ReprOK env ev v
+def AllReprOK (o : SubsetOut) : Prop := ∀ v ∈ o.vals, ReprCore env ev v
 
-theorem reprOK_at {o : SubsetOut} (h : AllReprOK env ev o) {i : Nat} {v : Val} (hv : o.vals[i]? = some v) : ReprOK env ev v :=
+theorem reprOK_at {o : SubsetOut} (h : AllReprOK env ev o) {i : Nat} {v : Val} (hv : o.vals[i]? = some v) : ReprCore env ev v :=
   h v (List.mem_of_getElem? hv)
 
 /-! ### attribute lines below the first layer are skipped -/
